@@ -1,5 +1,6 @@
 import DimodProofs.Store
 import DimodProofs.Heap
+import DimodProofs.HeapCache
 
 /-! # C19 — copies and non-mutating variants are independent of the original
 
@@ -485,6 +486,92 @@ example : MSep hq1 7 2 :=
 example : obs (addDiscreteFromComparison hq1 7 2 true false id id ⟨fun a b => a ++ b, fun a b => a ++ b⟩ id).1 2 = ([1, 2], [7, 8]) := by
   decide +kernel
 example : obs (addDiscreteFromComparison hq1 7 2 false true id id ⟨fun a b => a ++ b, fun a b => a ++ b⟩ id).1 2 = ([], []) := by
+  decide +kernel
+
+end C19
+
+/-! ## round 7: the Python-level object with its `__dict__` caches (`DimodModel/HeapCache.lean`) -/
+
+namespace C19
+open MHeap
+
+/-- **every route ends at the object's own cy object**: an ordinary method, a `@forwarding_method` (bound method stored in
+    `__dict__` on first use), the `.spin` / `.binary` object (cached in `_spin` / `_binary` or made now) and ITS forwarding methods
+    all write the cy object of the receiver; the look-ups change no cell, keep the invariant and re-bind no `.data` -/
+theorem heap_py_routes_reach_own_object (p : PyHeap) (hp : CacheInv p) (x : Nat) (ox : PyObj) (hx : p.obj x = some ox) (r : Route) :
+    (resolve p x r).2 = ox.data ∧ (resolve p x r).1.h = p.h ∧ CacheInv (resolve p x r).1 ∧
+    ∀ i o, p.obj i = some o → ∃ o', (resolve p x r).1.obj i = some o' ∧ o'.data = o.data := by
+  obtain ⟨he, ht⟩ := resolve_spec hp hx r
+  exact ⟨ht, he.1, he.2.1, he.2.2⟩
+
+/-- **the copy starts with an empty `__dict__`**: whatever the receiver has cached (a view in `_binary`, stored bound methods),
+    `__copy__` / `__deepcopy__` give an object holding `data` only, around the cy object made by the cy-level copy; the receiver's
+    own `__dict__` is untouched -/
+theorem heap_py_copy_fresh_dict (p : PyHeap) (hp : CacheInv p) (x : Nat) (ox : PyObj) (hx : p.obj x = some ox) (tr : List Rat → List Rat)
+    (deep : Bool) :
+    CacheInv (pyCopy p x tr deep).1 ∧ (pyCopy p x tr deep).1.obj x = some ox ∧
+    (pyCopy p x tr deep).1.obj (pyCopy p x tr deep).2 =
+      some ⟨((pyCopyCall ox.isView tr deep).run p.h ox.data 0).2, deep && ox.isView, none, []⟩ ∧
+    (pyCopy p x tr deep).1.h = ((pyCopyCall ox.isView tr deep).run p.h ox.data 0).1 := by
+  obtain ⟨h1, h2, _, h4, h5⟩ := pyCopy_spec hp hx tr deep
+  exact ⟨h1, h2, h5, h4⟩
+
+/-- **independence including the caches, whole histories**: copy a model (or a vartype view: then the copy is the detached
+    converted model) whose caches are in ANY state; then let ANY interleaving of in-place edits run on the original and on the
+    copy, each edit through ANY route (direct, forwarded, through the cached or newly made `.spin` / `.binary` object, through
+    that object's forwarded methods).  The original reads what its own edits make of what it read before the copy, the copy
+    what its own edits make of the copied contents. -/
+theorem heap_py_copy_independent_with_caches (p : PyHeap) (hp : CacheInv p) (x : Nat) (ox : PyObj) (hx : p.obj x = some ox)
+    (hd : Born 0 p.h ox.data) (tr : List Rat → List Rat) (deep : Bool) (es : List (Bool × Route × Edit)) :
+    obs (pyRunEdits (pyCopy p x tr deep).1 x (pyCopy p x tr deep).2 es).h ox.data =
+      applyEdits (obs p.h ox.data) (((es.map fun t => (t.1, t.2.2)).filter (fun q => !q.1)).map (·.2)) ∧
+    obs (pyRunEdits (pyCopy p x tr deep).1 x (pyCopy p x tr deep).2 es).h ((pyCopyCall ox.isView tr deep).run p.h ox.data 0).2 =
+      applyEdits ((pyCopyCall ox.isView tr deep).expected p.h ox.data ox.data)
+        (((es.map fun t => (t.1, t.2.2)).filter (fun q => q.1)).map (·.2)) := by
+  obtain ⟨h1, h2, _, h4, h5⟩ := pyCopy_spec hp hx tr deep
+  rw [pyRunEdits_h h1 h2 h5 es, h4]
+  simp only [pyCopyCall_operand ox.isView tr deep p.h ox.data 0 ox.data]
+  exact heap_copies_independent p.h ox.data ox.data hd hd _ (pyCopyCall_produces _ _ _) _
+
+/-- **`set_objective(object-dtype model)` end to end** (before: single-step statement only): on any well-formed CQM and any model sharing
+    no cell with it, the temporary `BinaryQuadraticModel(objective, dtype=self.dtype)` is made of new cells and is what is copied into the
+    CQM's own objective cell; the caller's model reads as before and stays separate, ANY later history of in-place edits of the caller's
+    model leaves the CQM reading the same and ANY history of in-place edits of the CQM leaves the caller's model reading the same -/
+theorem heap_set_objective_object_then_histories (h : Heap) (d m : Nat) (s : MSep h d m) (remap : List Rat → List Rat) (m' : Merge)
+    (es : List Edit) (ces : List CEdit) :
+    MSep (setObjective h d m true remap m') d m ∧ obs (setObjective h d m true remap m') m = obs h m ∧
+    cobs (es.foldl (fun acc e => e.run acc m) (setObjective h d m true remap m')) d = cobs (setObjective h d m true remap m') d ∧
+    obs (ces.foldl (fun acc e => e.run acc d) (setObjective h d m true remap m')) m = obs h m :=
+  setObjective_object_then_histories s remap m' es ces
+
+/-! ### non-vacuity, and what sharing the `__dict__` would do -/
+
+/-- Python object 0 = the BQM at cells 0–2 of `h0` -/
+def p0 : PyHeap := { h := h0, obj := fun i => if i = 0 then some ⟨2, false, none, []⟩ else none, nextId := 1 }
+
+example : CacheInv p0 := by
+  refine ⟨fun i hi => by simp only [p0] at hi ⊢; rw [if_neg (by omega)], ?_⟩
+  intro i o hio
+  simp only [p0] at hio
+  split at hio
+  · cases hio
+    refine ⟨?_, ?_⟩
+    · intro nt h; cases h
+    · intro v hv; cases hv
+  · cases hio
+
+/-- `.binary` was read (object 1 cached in `_binary`) and `add_linear` called once (bound method stored) before the copy:
+    the copy (object 2, cy object 8) has neither -/
+example : ((pyCopy (pyEdit (pyOther p0 0).1 0 (.fwd "add_linear") (.coeffs id)) 0 id false).1.obj 2).map (fun o => (o.data, o.other, o.fwd))
+    = some (8, none, []) := by decide +kernel
+/-- … an edit of the copy through ITS `.binary` writes the copy's cy object: the original still reads `[1, 2]` -/
+example : obs (pyEdit (pyCopy (pyOther p0 0).1 0 id true).1 2 .otherDirect (.coeffs fun _ => [9])).h 2 = ([1, 2], [7, 8]) := by decide +kernel
+example : obs (pyEdit (pyCopy (pyOther p0 0).1 0 id true).1 2 .otherDirect (.coeffs fun _ => [9])).h 8 = ([9], [7, 8]) := by decide +kernel
+/-- … whereas a copy that took over the `__dict__` would write the ORIGINAL through the shared cached view -/
+example : obs (pyEdit (copySharingDict (pyOther p0 0).1 0).1 2 .otherDirect (.coeffs fun _ => [9])).h 2 = ([9], [7, 8]) := by decide +kernel
+example : obs (pyEdit (copySharingDict (pyOther p0 0).1 0).1 2 .otherDirect (.coeffs fun _ => [9])).h 8 = ([1, 2], [7, 8]) := by decide +kernel
+/-- … and likewise through a stored bound method -/
+example : obs (pyEdit (copySharingDict (pyEdit p0 0 (.fwd "scale") (.coeffs id)) 0).1 1 (.fwd "scale") (.coeffs fun _ => [9])).h 2 = ([9], [7, 8]) := by
   decide +kernel
 
 end C19
